@@ -111,10 +111,10 @@ Proof.
     + cbn [app] in Hin. destruct Hin as [K|Hin]; [inversion K; subst; contradiction|exact (IH h v Hin)].
 Qed.
 
-Lemma panics_in_branches_map {X} Q (l : list X) (hf : X -> host) (f : X -> prog resp) :
-  (forall x, In x l -> panics_in Q (f x)) ->
+Lemma post_branches_map {X} Q (l : list X) (hf : X -> host) (f : X -> prog resp) :
+  (forall x, In x l -> post Q (fun _ => True) (f x)) ->
   (fix go (bs : list (host * prog resp)) : Prop :=
-     match bs with [] => True | (_, b) :: r => panics_in Q b /\ go r end) (map (fun x => (hf x, f x)) l).
+     match bs with [] => True | (_, b) :: r => post Q (fun _ => True) b /\ go r end) (map (fun x => (hf x, f x)) l).
 Proof.
   induction l as [|x r IH]; intros H; [exact I|]. cbn [map]. split; [apply H; left; reflexivity|]. apply IH. intros y Hy. apply H. right. exact Hy.
 Qed.
@@ -136,7 +136,7 @@ Theorem cluster_state_from_db_view s hosts :
 Proof.
   unfold cluster_state_from_db. cbn [post]. split.
   - induction hosts as [|[h c] r IH]; [exact I|]. cbn [map]. split; [|exact IH].
-    apply nopanic_panics_in. apply nopanic_bind; [apply np_get_node_state|intros; exact I].
+    apply nocrash_of_nopanic. apply nopanic_bind; [apply np_get_node_state|intros; exact I].
   - intros rs Hperm Hres. apply view_of_results. intros h c Hin.
     assert (In h (map fst (map (fun '(h, casc) => (h, ns <- get_node_state h casc;; Ret (RNodeState ns))) hosts))) as Hk.
     { rewrite map_map. apply in_map_iff. exists (h, c). split; [reflexivity|exact Hin]. }
@@ -154,7 +154,7 @@ Theorem cluster_state_from_dcs_view s hosts :
 Proof.
   unfold cluster_state_from_dcs. cbn [post]. split.
   - induction hosts as [|[h c] r IH]; [exact I|]. cbn [map]. split; [|exact IH].
-    apply nopanic_panics_in. unfold health_of. pnp.
+    apply nocrash_of_nopanic. unfold health_of. pnp.
   - intros rs Hperm Hres. destruct (existsb _ rs) eqn:Ex; [exact I|]. cbn [post]. apply view_of_results. intros h c Hin.
     assert (In h (map fst (map (fun '(h, _) => (h, health_of h)) hosts))) as Hk.
     { rewrite map_map. apply in_map_iff. exists (h, c). split; [reflexivity|exact Hin]. }
@@ -633,7 +633,7 @@ Proof.
   match goal with |- post _ _ (if ?c then _ else _) => destruct c end; [exact I|].
   eapply post_bind; [apply nocrash_of_nopanic; apply np_exec|]. intros [x|] _; [exact I|].
   cbn [post]. split.
-  - apply (panics_in_branches_map (fun _ => False) active (fun h => h)). intros h _. apply nopanic_panics_in.
+  - apply (post_branches_map (fun _ => False) active (fun h => h)). intros h _. apply nocrash_of_nopanic.
     destruct (state_ping cs2 h) as [pok|]; [|exact I]. destruct (N.eqb_spec h nm) as [->|Hne]; [exact I|]. cbn [orb].
     destruct (negb pok); [exact I|]. apply nopanic_bind; [apply np_change_master; exact Hne|intros; exact I].
   - intros errs3 _ _. match goal with |- post _ _ (if ?c then _ else _) => destruct c end; [exact I|].
@@ -733,14 +733,14 @@ Proof.
   eapply post_bind; [apply nocrash_of_nopanic; apply disable_all_nopanic|]. intros [x|] _; [exact I|].
   eapply post_bind; [apply nocrash_of_nopanic; destruct (negb (is_failover sw)); [unfold start_timing_now; apply nopanic_bind; [apply np_now|]; intros t; apply nopanic_bind; [apply np_dcs_set|intros; exact I]|exact I]|]. intros _ _.
   cbn [post]. split.
-  { apply (panics_in_branches_map (fun _ => False) active (fun h => h)). intros h _. apply nopanic_panics_in. apply np_freeze. }
+  { apply (post_branches_map (fun _ => False) active (fun h => h)). intros h _. apply nocrash_of_nopanic. apply np_freeze. }
   intros errs _ _.
   match goal with |- post _ _ (if ?c then _ else _) => destruct c end.
   { eapply post_bind; [apply nocrash_of_nopanic; apply np_finish|]. intros e _. exact I. }
   assert (Hk : In (se_old_master env) (map fst (se_state env))) by (rewrite Kcs; apply ActiveNodesProofs.mem_host_In; exact Hold).
   destruct (state_ping_known _ _ Hk) as [b ->].
   cbn [post]. split.
-  { apply (panics_in_branches_map (fun _ => False) (filter_out active [se_old_master env]) (fun h => h)). intros h _. apply nopanic_panics_in. apply np_stop_io. }
+  { apply (post_branches_map (fun _ => False) (filter_out active [se_old_master env]) (fun h => h)). intros h _. apply nocrash_of_nopanic. apply np_stop_io. }
   intros errs2 _ _.
   set (frozen := filter (fun h => res_ok errs h && res_ok errs2 h) active).
   destruct (check_quorum _ _ _ _) eqn:Eq; cbn [negb]; [|exact I].
@@ -985,3 +985,58 @@ Qed.
 Lemma state_manager_has_runs cfg env m :
   runs (state_manager cfg env m) [{| ev_site := 368; ev_call := DcsConnected; ev_resp := RBool false |}] (Done (NxLost, m)).
 Proof. cbn. auto. Qed.
+
+(* ---------------------------------------------------------------- the speed-up phase *)
+Lemma np_opt_get_state s h : nopanic (opt_get_state s h). Proof. unfold opt_get_state. pnp. Qed.
+Lemma np_wait_check low h : nopanic (wait_check low h).
+Proof.
+  unfold wait_check. apply nopanic_bind; [apply np_opt_get_state|]. intros [a e].
+  destruct e as [e|]; [destruct a as [[[|]|]|]; exact I|].
+  destruct a as [[[|]|]|]; try exact I. apply nopanic_bind; [apply np_replica_status|]. intros st. destruct (snd st); [exact I|].
+  destruct (match fst st with Some rs => rs_lag rs | None => None end) as [lag|]; [|exact I].
+  destruct (lag <? low); [|exact I]. apply nopanic_bind; [apply np_delete_hosts|intros; exact I].
+Qed.
+Lemma np_opt_wait fuel low h dl : forall errors, nopanic (opt_wait fuel low h dl errors).
+Proof.
+  induction fuel as [|f IH]; intros errors; cbn [opt_wait]; [exact I|]. cbn [nopanic]. intros _.
+  apply nopanic_bind; [apply np_now|]. intros t. destruct (dl <? t); [exact I|].
+  apply nopanic_bind; [apply np_wait_check|]. intros c. destruct (fst c); [exact I|]. destruct (3 <? _); [exact I|apply IH].
+Qed.
+
+Lemma syncer_loop_nocrash fuel env :
+  incl (map fst (ov_states env)) (ov_cluster env) -> In (ov_master env) (ov_cluster env) -> nocrash (syncer_loop fuel env).
+Proof.
+  intros Hk Hm. induction fuel as [|f IH]; cbn [syncer_loop post]; [exact I|]. intros more.
+  destruct more; try exact I. destruct b; [|exact I].
+  eapply post_bind; [apply opt_sync_nocrash; assumption|]. intros _ _. exact IH.
+Qed.
+
+Theorem optimization_phase_nocrash fuel cfg env sw active timeout :
+  incl (map fst (ov_states env)) (ov_cluster env) -> In (ov_master env) (ov_cluster env) ->
+  nocrash (optimization_phase fuel cfg env sw active timeout).
+Proof.
+  intros Hk Hm. unfold optimization_phase.
+  eapply post_bind.
+  { apply nocrash_of_nopanic. unfold phase_prefix. destruct (negb (c_semi_sync cfg)); [exact I|].
+    apply nopanic_bind.
+    { unfold choose_replica_to_optimize. destruct (sw_to sw); [exact I|].
+      apply nopanic_bind.
+      - unfold node_positions. cbn [nopanic]. split.
+        + apply (nopanic_branches_map _ (fun h => h)). intros h _. apply np_position_of.
+        + intros rs. destruct (existsb _ rs); exact I.
+      - intros [positions|]; [|exact I]. destruct (most_desirable _ _ _); exact I. }
+    intros [target|]; [|exact I]. destruct (negb (mem_host target (ov_cluster env))); [exact I|].
+    apply nopanic_bind; [unfold Optimization.opt_enable; pnp|]. intros [x|]; exact I. }
+  intros [target|] _; [|exact I].
+  eapply post_bind; [apply nocrash_of_nopanic; apply np_now|]. intros t0 _.
+  cbn [post]. split; [|intros; exact I].
+  split; [apply nocrash_of_nopanic; unfold wait_branch; apply nopanic_bind; [apply np_opt_wait|intros; exact I]|].
+  split; [|exact I]. apply syncer_loop_nocrash; assumption.
+Qed.
+
+Theorem optimization_phase_never_crashes fuel cfg env sw active timeout tr o :
+  incl (map fst (ov_states env)) (ov_cluster env) -> In (ov_master env) (ov_cluster env) ->
+  runs (optimization_phase fuel cfg env sw active timeout) tr o -> exists a, o = Done a.
+Proof.
+  intros Hk Hm H. destruct (post_no_panic _ _ (optimization_phase_nocrash fuel cfg env sw active timeout Hk Hm) _ _ H) as (a & E & _). exists a. exact E.
+Qed.
